@@ -376,11 +376,11 @@ def _ancestors(n, pm):
 
 def run(ctx):
     ctx.assume("numpy Generator.choice raises on an empty population; Python's % raises on a zero divisor")
-    rule_T1(ctx)
-    rule_T2(ctx)
-    rule_T4(ctx)
-    rule_T3(ctx)
-    rule_T5(ctx)
+    ctx.soft(rule_T1)
+    ctx.soft(rule_T2)
+    ctx.soft(rule_T4)
+    ctx.soft(rule_T3)
+    ctx.soft(rule_T5)
     # "complete trees": no move loses a data point (C07.L1); "finite log_p_one": non-positive convolution
     # entries are floored before the logarithm on both back ends (C02.N4)
     from . import C02, C07
